@@ -124,7 +124,10 @@ def run_check(prop, tier, seed, jobs=None):
         merged.inconclusive_because("reference self-test failed: " + st)
 
     # witnesses of earlier runs of this property are stale once a new run starts
-    shutil.rmtree(os.path.join(VERIF, "replays", prop), ignore_errors=True)
+    # evidence and witnesses under /verif always describe /repo itself; runs against another tree (CCT_REPO: seeded
+    # changes, mutants, the pre-fix worktree) write elsewhere
+    out_dir = os.environ.get("VERIF_OUT") or (VERIF if repo == os.path.realpath("/repo") else os.path.join(tempfile.gettempdir(), "vf_out_other_tree"))
+    shutil.rmtree(os.path.join(out_dir, "replays", prop), ignore_errors=True)
     scratch = tempfile.mkdtemp(prefix="vf_%s_" % prop)
     try:
         specs = []
@@ -135,7 +138,8 @@ def run_check(prop, tier, seed, jobs=None):
         overlays = [None, None, {"env": {"TZ": "Asia/Tokyo"}}, None, {"preimport": ["vf.monitors.strictwarnings"]}, None,
                     {"env": {"LC_ALL": "C", "PYTHONUTF8": "0", "PYTHONCOERCECLOCALE": "0"}}, {"hashseed": "random"}, None,
                     {"pyargs": ["-O"]}, {"env": {"TZ": "America/Los_Angeles", "PYTHONWARNINGS": "error::UserWarning"}}, None,
-                    {"stdout_encoding": "ascii"}, None, {"stdout_encoding": "utf-16"}, None]
+                    {"stdout_encoding": "ascii"}, None, {"stdout_encoding": "utf-16"}, None,
+                    {"umask": 0o077, "enter_cwd": True}, None, {"env": {"HOME": "/nonexistent-home"}, "stdin": "closed", "umask": 0}]
         n_over = 0
         for i, s in enumerate(specs):
             if not any(k in s for k in ("env", "pyargs", "preimport", "hashseed", "cwd", "stdout_encoding", "seed_fixed", "no_overlay")):
@@ -179,6 +183,8 @@ def run_check(prop, tier, seed, jobs=None):
                     merged.inconclusive_because(err)
                     continue
                 merged.add(spec, d)
+                h = merged.hists.setdefault("config_overlay", {})
+                h[spec.get("overlay", "none")] = h.get(spec.get("overlay", "none"), 0) + 1
         if hasattr(mod, "finish") and not st:
             mod.finish(merged, tier, seed)
     finally:
@@ -224,7 +230,7 @@ def run_check(prop, tier, seed, jobs=None):
     replay_paths = []
     if new_viol:
         rc = 1
-        rdir = os.path.join(VERIF, "replays", prop)
+        rdir = os.path.join(out_dir, "replays", prop)
         os.makedirs(rdir, exist_ok=True)
         seen_mech = {}
         for v in new_viol:
@@ -298,8 +304,8 @@ def run_check(prop, tier, seed, jobs=None):
         "wall_s": round(wall, 2),
         "violations": len(new_viol),
     }
-    os.makedirs(os.path.join(VERIF, "evidence"), exist_ok=True)
-    ep = os.path.join(VERIF, "evidence", prop + ".json")
+    os.makedirs(os.path.join(out_dir, "evidence"), exist_ok=True)
+    ep = os.path.join(out_dir, "evidence", prop + ".json")
     with open(ep + ".tmp", "w") as f:
         json.dump(ev, f, indent=1, allow_nan=False)
     os.replace(ep + ".tmp", ep)
